@@ -1273,7 +1273,9 @@ class _WireReader:
             if not self.ignore_trailing and self.parser.remaining() != 0:
                 raise TrailingJunk
             if self.multi and self.message.tsig_ctx and not self.message.had_tsig:
-                self.message.tsig_ctx.update(self.parser.wire)
+                # Digest the message only, not any octets after it that
+                # ignore_trailing let through.
+                self.message.tsig_ctx.update(self.parser.wire[: self.parser.current])
         except Exception as e:
             if self.continue_on_error:
                 self._add_error(e)
